@@ -247,18 +247,18 @@ pub fn tree_shrinks(t: &TreeSpec) -> Vec<TreeSpec> {
         }
       }
     }
-    TreeSpec::Replace { inner, calls } => {
+    TreeSpec::Replace { inner, calls, .. } => {
       out.push((**inner).clone());
       for i in 0..calls.len() {
         let mut k = calls.clone();
         k.remove(i);
-        out.push(TreeSpec::Replace { inner: inner.clone(), calls: k });
+        out.push(TreeSpec::Replace { inner: inner.clone(), calls: k, observe_at: None });
       }
       // shrinking the inner text would invalidate positions; only structural
       // replacement of the inner by a leaf with the same text is safe
       let text = crate::model::content(inner).0;
       if !matches!(**inner, TreeSpec::Raw { .. }) {
-        out.push(TreeSpec::Replace { inner: Box::new(TreeSpec::Raw { text }), calls: calls.clone() });
+        out.push(TreeSpec::Replace { inner: Box::new(TreeSpec::Raw { text }), calls: calls.clone(), observe_at: None });
       }
     }
     TreeSpec::Cached { inner, cache_id } => {
@@ -287,7 +287,7 @@ fn map_cached(t: &TreeSpec, cid: u32, new: &TreeSpec) -> TreeSpec {
     TreeSpec::Cached { cache_id, .. } if *cache_id == cid => new.clone(),
     TreeSpec::Cached { inner, cache_id } => TreeSpec::Cached { inner: Box::new(map_cached(inner, cid, new)), cache_id: *cache_id },
     TreeSpec::Concat { children, how } => TreeSpec::Concat { children: children.iter().map(|c| map_cached(c, cid, new)).collect(), how: how.clone() },
-    TreeSpec::Replace { inner, calls } => TreeSpec::Replace { inner: Box::new(map_cached(inner, cid, new)), calls: calls.clone() },
+    TreeSpec::Replace { inner, calls, observe_at } => TreeSpec::Replace { inner: Box::new(map_cached(inner, cid, new)), calls: calls.clone(), observe_at: *observe_at },
     TreeSpec::User { inner, id } => TreeSpec::User { inner: Box::new(map_cached(inner, cid, new)), id: *id },
     TreeSpec::Boxed { inner } => TreeSpec::Boxed { inner: Box::new(map_cached(inner, cid, new)) },
     leaf => leaf.clone(),
